@@ -190,6 +190,9 @@ func TestVerifC17Watch(t *testing.T) {
 		return v
 	}
 	if w.ReplayV != nil {
+		if w.ReplayV.Scenario != "object-watch" {
+			return
+		}
 		for _, v := range w.Replayer(w.ReplayV.Scenario, w.ReplayV.Trace) {
 			t.Logf("REPLAY %s %s: %s", v.Property, v.Signature, v.Detail)
 			w.Res.Violations = append(w.Res.Violations, v)
